@@ -330,5 +330,14 @@ m("C12", "C12-deep-nested-calls-unbounded", "R12-full:callR:nested-call-depth-bo
 
 m("C20", "C20-preload-through-the-global", "R20-order:loLoaderPreload:package-table-not-through-the-global", ("loadlib.go", "\tpreload := L.GetField(packageTable(L), \"preload\")", "\tpreload := L.GetField(L.GetField(L.Get(EnvironIndex), \"package\"), \"preload\")"))
 m("C13", "C13-loop-marker-shared-again", "R13-globals:escape", ("baselib.go", "\tloopdetection := L.G.loopDetection\n", "\tloopdetection := sharedLoopMarker\n"), ("baselib.go", "func loRequire(L *LState) int {", "var sharedLoopMarker = &LUserData{}\n\nfunc loRequire(L *LState) int {"))
+
+m("C15", "C15-unsigned-conversion-raw-flags", "R15-flags:LNumber.Format:unsigned-conversions-hide-the-sign-flags", ("value.go", "\t\tdefaultFormat(uint64(int64(nm)), unsignedState{f, int64(nm) == 0}, c)\n", "\t\tdefaultFormat(uint64(int64(nm)), f, c)\n"))
+m("C15", "C15-sub-decrements-before-resolving", "R15-positions:luaIndex2StringIndex:decrement-only-of-a-positive-position", ("stringlib.go", "\tif start && i > 0 {\n\t\ti -= 1\n\t}\n", "\tif start && i != 0 {\n\t\ti -= 1\n\t}\n"))
+m("C15", "C15-deg-uses-rad-factor", "R15-mathmap:entry:deg", ("mathlib.go", "L.Push(LNumber(float64(L.CheckNumber(1)) / (math.Pi / 180)))", "L.Push(LNumber(float64(L.CheckNumber(1)) * (math.Pi / 180)))"))
+m("C17", "C17-localname-strict-start", "R17-scope:LocalName:scope-starts-at-StartPc", ("function.go", "p.DbgLocals[i].StartPc <= pc; i++ {", "p.DbgLocals[i].StartPc < pc; i++ {"))
+m("C20", "C20-registermodule-skips-existing-table", "R20-order:RegisterModule:adds-functions-to-an-existing-table", ("auxlib.go", "\t// the functions are added to the module's table whether it was created just now or existed already\n\tfor fname, fn := range funcs {\n\t\tmodtb.RawSetString(fname, ls.NewFunction(fn))\n\t}\n\treturn modtb\n", "\tif !ok {\n\t\tfor fname, fn := range funcs {\n\t\t\tmodtb.RawSetString(fname, ls.NewFunction(fn))\n\t\t}\n\t}\n\treturn modtb\n"))
+m("C20", "C20-require-reads-registry-loaders", "R20-order:loRequire:searchers-from-package.loaders", ("baselib.go", "\tloaders, ok := L.GetField(packageTable(L), \"loaders\").(*LTable)", "\tloaders, ok := L.GetField(L.Get(RegistryIndex), \"_LOADERS\").(*LTable)"))
+for _p in ("C06", "C12"):
+    m(_p, _p + "-yield-room-not-checked-first", "R06-killarg:switchToParentThread:room-checked-before-the-switch", ("vm.go", "\tif !kill && !parent.reg.canHold(nargs+1) {\n\t\t// a yield: the resumer must have room for the values (and the leading true) before anything is\n\t\t// switched. Where it has not, the yield fails as an error of the coroutine - not half-way through\n\t\t// the hand-over, which left the thread suspended with the same yield still pending\n\t\tL.RaiseError(\"registry overflow\")\n\t}\n", ""))
 if __name__ == "__main__":
     main()
